@@ -89,7 +89,7 @@ func kindRouterRecv(id string, a []string) {
 	closed := false
 	buf := make([]byte, 4096)
 	for {
-		_ = c.SetReadDeadline(time.Now().Add(400 * time.Millisecond))
+		_ = c.SetReadDeadline(time.Now().Add(1200 * time.Millisecond))
 		n, err := c.Read(buf)
 		back = append(back, buf[:n]...)
 		if err == io.EOF {
